@@ -1,5 +1,6 @@
 import FparserModel.Proofs.ExprMain
 import FparserModel.Proofs.ExprGroups
+import FparserModel.Proofs.ExprConverse
 
 /-!
 # Property C03 — expression precedence and associativity (model M-C)
@@ -63,6 +64,19 @@ theorem parse_render_parse (ts : List T) (e : Ex) (h : parse .expr ts = some e)
     parse .expr (render e) = some e := by
   have := parse_sound _ _ _ h
   exact parse_render_partial e hd hb (by rw [this]; exact hg)
+
+/-- The first hypothesis of `parse_render_partial` is necessary, not merely sufficient (at the
+node where it is violated): a valid `expr defined-binary-op level-5-expr` whose right operand
+shows a `.word.` outside parentheses is NEVER parsed to the standard's tree, whatever the
+operands are. (General form of `parse_render_witness`.) -/
+theorem parse_render_boundary_necessary (n : Nat) (g : Bool) (l r : Ex)
+    (hl : Derives .expr l) (hr : Derives .l5 r)
+    (hdot : (topToks r).any T.isDotted = true) :
+    Derives .expr (.bin (.op (.dot n) g) l r) ∧
+    parse .expr (render (.bin (.op (.dot n) g) l r)) ≠ some (.bin (.op (.dot n) g) l r) := by
+  refine ⟨Derives.expr_bin n g hl hr, ?_⟩
+  apply root_boundary_necessary n g l r (derives_opsOK hl) (derives_opsOK hr)
+  simpa [List.any_eq_true] using hdot
 
 /-- Whatever is accepted (valid Fortran or not, inside the boundary or not) is grouped by
 the precedence table: `Groups` is the grammar read off `levels` (see Proofs/ExprGroups.lean). -/
@@ -159,6 +173,9 @@ theorem witness_outside :
 the standard says) while `a .x. b .eq. c` (w4) is rejected -/
 example : parse .expr (render (.bin (dop 1) a (.bin (iop (.rel 0 false)) b c)))
     = some (.bin (dop 1) a (.bin (iop (.rel 0 false)) b c)) := by decide
+
+example : (topToks (.bin (iop .and) b c)).any T.isDotted = true := by decide
+example : Derives .l5 (.bin (iop .and) b c) := by simp only [b, c, iop]; derive
 
 /-! ## non-vacuity -/
 
